@@ -1,6 +1,6 @@
 (** Extraction of the executable model to OCaml ([ExtrOcamlBasic] only). *)
 From Coq Require Import ExtrOcamlBasic NArith String.
-From DC Require Import Ts Hlc Orswot Actor Cluster.
+From DC Require Import Ts Hlc Orswot Actor Cluster Distributor TsDiff PollerPlan.
 Extraction Language OCaml.
 Extraction "model.ml"
   N.add N.mul N.sub N.div N.modulo N.ltb N.leb N.eqb N.of_nat N.to_nat
@@ -10,4 +10,6 @@ Extraction "model.ml"
   empty_set insert_ws delete_ws will_apply set_get set_diff set_purge add_raw_tombstones set_merge
   entries_list dead_list before_set view apply_op run_ops
   actor_step rebuild store_list st_put st_tomb st_remove meta_list gmap_empty_store
-  cstep cinit node exchange_diff live_docs.
+  cstep cinit node exchange_diff live_docs
+  d_init d_register d_tick tick_events ts_diff_lists
+  p_init poller_apply poller_record poller_plan_list.
